@@ -17,4 +17,5 @@ pub trait Deserialize {}
 }
 pub mod de {
     pub trait DeserializeOwned {}
+    impl<T: super::Serialize> DeserializeOwned for T {}
 }
